@@ -165,3 +165,72 @@ def _follow_obs(I, F, pt, meta, lt, seen, out, path):
         else:
             sub = region
         observable_deps(I, F, sub, pointee, True, seen, out, '%s->obj%d+%d' % (path, oid, off))
+
+
+# ---------------------------------------------------------------------------------------------
+# vector type facts
+
+_VEC_RE = re.compile(r'^(?:.*::)?(BVec|[A-Za-z0-9]*Vec)([234])(A?)$')
+
+
+def vec_info(F, tyid):
+    """-> dict(name, prefix, dim, aligned, lanes=[(off,size)], scalar=elem scalar name) for glam
+    vector / quaternion / mask types, else None"""
+    t = F.types[tyid]
+    if t.get('k') != 'adt' or t.get('crate') != 'glam':
+        return None
+    name = tydef(F, tyid)
+    m = _VEC_RE.match(name)
+    if m:
+        dim = int(m.group(2))
+    elif name in ('Quat', 'DQuat'):
+        dim = 4
+    else:
+        return None
+    lv = leaves_plain(F, tyid)
+    lv = [(o, s, lt) for (o, s, lt) in lv if s > 0]
+    lv.sort()
+    if len(lv) < dim:
+        return None
+    esz = lv[0][1]
+    lanes = [(lv[i][0], lv[i][1]) for i in range(dim)]
+    # lanes must be equally sized and contiguous from 0
+    for i, (o, s) in enumerate(lanes):
+        if s != esz or o != i * esz:
+            return None
+    return {'name': name, 'dim': dim, 'lanes': lanes, 'esz': esz, 'elem_ty': lv[0][2], 'nleaves': len(lv)}
+
+
+def leaves_plain(F, tyid, base=0, out=None):
+    if out is None:
+        out = []
+    t = F.types[tyid]
+    k = t.get('k')
+    if t['sz'] in (0, None):
+        return out
+    if k in ('int', 'float', 'bool', 'char') or (k == 'ptr' and t.get('fat') is None):
+        out.append((base, t['sz'], tyid))
+    elif k == 'array':
+        for j in range(t['count']):
+            leaves_plain(F, t['elem'], base + j * t['stride'], out)
+    elif 'fields' in t:
+        fs = t['fields'][:1] if t.get('adt') == 'union' else t['fields']
+        for (off, fid, _n) in fs:
+            leaves_plain(F, fid, base + off, out)
+    return out
+
+
+def atom_at(root, argi, off, through_ptr=False):
+    for a, info in root.atoms.items():
+        if info.arg == argi and info.off == off and info.through_ptr == through_ptr and info.kind not in ('len', 'discr', 'slice_all'):
+            return a
+    return None
+
+
+def cell_term(v, off, size):
+    if isinstance(v, T):
+        return v if off == 0 else None
+    c = v.cells.get(off)
+    if c is None or c[0] != size:
+        return None
+    return c[1]
